@@ -326,3 +326,65 @@ def gen_case(rng, max_deltas=6, cover=True):
                 must, need = need[:3], need[3:]
                 expr = expr * NonSymmetricTensor("x", tuple(must))
     return expr, tg, {"deltas": n, "shape": shape}
+
+
+# --------------------------------------------------------------------------
+# replay support: JSON form of a product and its reconstruction
+# --------------------------------------------------------------------------
+def _idx_json(i):
+    return [i.space, i.spin, i.name, i.uid]
+
+
+def state_to_json(state):
+    coef, objs = state
+    out = []
+    for a, z in objs:
+        if a[0] == "T":
+            out.append({"t": "T", "kind": a[1], "name": a[2], "bks": a[3],
+                        "upper": [_idx_json(i) for i in a[4]],
+                        "lower": [_idx_json(i) for i in a[5]], "exp": z})
+        elif a[0] == "D":
+            out.append({"t": "D", "i": _idx_json(a[1]), "j": _idx_json(a[2]),
+                        "exp": z})
+        elif a[0] == "S":
+            out.append({"t": "S", "name": a[1], "exp": z})
+        elif a[0] == "R":
+            out.append({"t": "R", "n": a[1], "exp": z})
+        else:
+            raise adcio.Unsupported("polynomial in replay")
+    return {"coef": [coef.numerator, coef.denominator], "objs": out}
+
+
+def json_to_expr(js):
+    """rebuild the sympy product (registry indices only; raw dummies with
+    uid > 0 are recreated as registry indices of the same name)"""
+    from sympy import Symbol
+
+    def idx(d):
+        space, spin, name, uid = d
+        return get_symbols(name, spin if spin else None)[0]
+    e = Rational(js["coef"][0], js["coef"][1])
+    for o in js["objs"]:
+        if o["t"] == "T":
+            up = tuple(idx(d) for d in o["upper"])
+            lo = tuple(idx(d) for d in o["lower"])
+            if o["name"] == "a+":
+                b = Fd(up[0])
+            elif o["name"] == "a-":
+                b = F(up[0])
+            elif o["kind"] == "KNonSym":
+                b = NonSymmetricTensor(o["name"], up)
+            elif o["kind"] == "KAmp":
+                b = Amplitude(o["name"], up, lo, o["bks"])
+            elif o["kind"] == "KSym":
+                b = SymmetricTensor(o["name"], up, lo, o["bks"])
+            else:
+                b = AntiSymmetricTensor(o["name"], up, lo, o["bks"])
+        elif o["t"] == "D":
+            b = KroneckerDelta(idx(o["i"]), idx(o["j"]))
+        elif o["t"] == "S":
+            b = Symbol(o["name"])
+        else:
+            b = sqrt(o["n"])
+        e = e * b ** o["exp"]
+    return e
